@@ -152,6 +152,35 @@ example :
 `w.cache = mkCache t` is how `Nodes.__init__` builds its cache; the table of `w` is arbitrary. The results are the
 path lists the real `Nodes.children` / `parent` / `siblings` then resolve through `Nodes.by` (see `resolve_order`). -/
 
+/-! ## `Resolver.load`: the candidate classes of a symbol, in the order of `mapping.symbols`
+
+`Table.load symbols fb` is `Resolver.load(SymbolMapping(symbols, fallback))`: one `register(symbol, ctor)` per pair, in the
+order the mapping lists the classes and each class lists its symbols (`Table.registrations`). -/
+
+/-- `Resolver.load(mapping).resolve(symbol)`: the classes whose symbol list names `symbol`, in mapping order (what
+    `NodeResolver.resolve` tries first to last — `classOf`); without any, the fallback class; without a fallback,
+    `Errors.UnresolvedNode` — every mapping, every symbol. -/
+theorem load_resolve (symbols : List (ClassDef × List Str)) (fb : Option ClassDef) (sym : Str) :
+    (Table.load symbols fb).resolve sym =
+      (let cs := ((Table.registrations symbols).filter (fun r => r.1 == sym)).map (·.2)
+       if cs.isEmpty then (match fb with | some c => .ok [c] | none => .error .unresolvedNode) else .ok cs) :=
+  load_resolve_eq symbols fb sym
+
+/-- `can_resolve(symbol)` after `load`: some class of the mapping lists the symbol (the fallback does not count). -/
+theorem load_can_resolve (symbols : List (ClassDef × List Str)) (fb : Option ClassDef) (sym : Str) :
+    (Table.load symbols fb).canResolve sym = (Table.registrations symbols).any (fun r => r.1 == sym) :=
+  load_canResolve_eq symbols fb sym
+
+/-- two classes sharing the symbol `a`: mapping order decides; `b` only through the fallback; `accepts` in first-registration order -/
+example : ((Table.load [(⟨['K'], .never⟩, [['a'], ['c']]), (⟨['L'], .always⟩, [['a']])] (some ⟨['T'], .always⟩)).resolve ['a']).toOption.map (·.map (·.name))
+      = some [['K'], ['L']] ∧
+    ((Table.load [(⟨['K'], .never⟩, [['a'], ['c']]), (⟨['L'], .always⟩, [['a']])] (some ⟨['T'], .always⟩)).resolve ['b']).toOption.map (·.map (·.name))
+      = some [['T']] ∧
+    ((Table.load [(⟨['K'], .never⟩, [['a'], ['c']])] none).resolve ['b']).toOption.map (·.map (·.name)) = none ∧
+    (Table.load [(⟨['K'], .never⟩, [['c'], ['a']]), (⟨['L'], .always⟩, [['a']])] none).accepts = [['c'], ['a']] ∧
+    (Table.load [(⟨['K'], .never⟩, [['c'], ['a']])] (some ⟨['T'], .always⟩)).canResolve ['b'] = false := by
+  decide +kernel
+
 /-- `Nodes.children(p)`: exactly the paths `p ++ [element of child i]`, in child order, for the entry `x` at `p`
     (none for tokens and empty entries). -/
 theorem children_agree (t : Entry) (h : WfTags t) (w : World) (hw : w.cache = mkCache t)
@@ -578,12 +607,22 @@ theorem conforming_depth (rel : Str → Str → Bool) (canRes : Str → Bool) (h
     (e : Entry) (he : conformsB rel e = true) : uheight canRes e ≤ 2 :=
   uheight_le_two rel canRes hcf e he
 
+/-- the hypothesis of `conforming_depth` holds of the shipped tables (through `grammar_chain_free` below) and is not
+    trivial: the relation `a > b > c > d` with nothing resolvable is refused -/
+example : chainFreeB [(['a'], [['b']]), (['b'], [['c']]), (['c'], [['d']])] (fun _ => false) = false ∧
+    chainFreeB [(['a'], [['b']]), (['b'], [['c']]), (['c'], [['d']])] (fun s => s == ['b']) = true ∧
+    chainFreeB [(['a'], [['b']]), (['b'], [['c']]), (['c'], [])] (fun _ => false) = true := by
+  decide +kernel
+
 /-- Decided over the generated tables: among the tree tags of `data/grammar.lark` as lark builds them, no three tags without
     a node class in `symbol_mapping()` can be nested directly inside one another above a further entry (today the longest such
     nestings have two: `class_def_raw > template_params`, `function_def_raw > parameters`, …). -/
 theorem grammar_chain_free :
     chainFreeB Generated.GrammarChildren.kids (fun s => Generated.GrammarChildren.resolvable.contains s) = true := by
   decide +kernel
+
+example : ChainFree (relOf Generated.GrammarChildren.kids) (fun s => Generated.GrammarChildren.resolvable.contains s) :=
+  chainFree_of_chainFreeB _ _ grammar_chain_free
 
 /-- `expand_spec_full` for every parse tree of the shipped grammar under the shipped symbol mapping, with neither the
     string-level nor the depth hypothesis left: `Nodes.expand(via)` (paths before resolution) is exactly the nearest
